@@ -437,3 +437,47 @@ def run(chk):
                 else:
                     chk.violation("C03.save", n, K.short(n), f"self.{attr} = {buf} | {buf}[<offset>:]",
                                   f"only part of the unconsumed input is saved in self.{attr}: the dropped bytes (e.g. the CR of a CRLF that straddles the read boundary, or bytes counted by the line limit) are missing when the next read continues the line")
+    latch_rule(chk, repo)
+
+
+def latch_rule(chk, repo, rule="C03.latch"):
+    """One-shot decisions are taken on data, not on call boundaries: in a feed function, a latch `if not self.X ...: <inspect the
+    buffer>; self.X = True` may be consumed only by a non-empty buffer - an empty feed (a read boundary right before the first byte)
+    carries no data to decide on, and consuming the latch there makes the outcome depend on the segmentation."""
+    n = 0
+    for rel, cname in ((MOD, "HttpParser"), (MOD, "HttpPayloadParser"), (MOD, "DeflateBuffer"), ("aiohttp/_websocket/reader_py.py", "WebSocketReader"), ("aiohttp/multipart.py", "MultipartResponseWrapper")):
+        try:
+            cls = repo.cls(rel, cname)
+        except AnalysisError:
+            continue
+        for name in ("feed_data", "_feed_data"):
+            fn = cls.methods.get(name)
+            if fn is None:
+                continue
+            params = [a.arg for a in fn.node.args.args if a.arg != "self"]
+            if not params:
+                continue
+            buf = params[0]
+            for a in ast.walk(fn.node):
+                if not (isinstance(a, ast.Assign) and len(a.targets) == 1 and isinstance(a.targets[0], ast.Attribute) and norm.raw(a.targets[0]).startswith("self.")
+                        and isinstance(a.value, ast.Constant) and a.value.value is True):
+                    continue
+                attr = norm.raw(a.targets[0])
+                pc = PC.pc(a)
+                if PC.has_lit(pc, attr, False) is None:
+                    continue
+                # the region governed by the latch: the innermost `if` whose test mentions the latch
+                region = next((i for i in prog.enclosing(a, (ast.If,)) if attr in norm.raw(i.test)), None)
+                if region is None or not any(x is a for x in region.body):
+                    continue  # a state transition deep inside a dispatch branch is not a one-shot latch (covered by the RP rules)
+                inspects = any(isinstance(x, ast.Subscript) and isinstance(x.value, ast.Name) and (x.value.id == buf or any(v is not None and isinstance(v, ast.Subscript) and norm.raw(v.value) == buf for _d, v in norm.fn_defs(fn.node).defs.get(x.value.id, [])))
+                               for x in ast.walk(region))
+                if not inspects:
+                    continue
+                n += 1
+                if PC.has_lit(pc, [(buf, True), (f"len({buf})", True), (f"len({buf}) > 0", True), (f"len({buf}) >= 1", True)], True) is not None:
+                    chk.ok(rule, a, f"{cname}.{name}(): the one-shot latch `{attr}` is consumed only by a non-empty `{buf}`")
+                else:
+                    chk.violation(rule, a, K.short(a), f"({buf})", f"{cname}.{name}(): the one-shot latch `{attr}` guards a decision made by inspecting `{buf}`, but an empty `{buf}` also consumes it: when a read boundary falls right before the first byte the decision is skipped for good",
+                                  path_condition=norm.fmt_cnf(pc))
+    chk.expect_count(rule, n, 1, "one-shot latches that inspect the fed buffer")
